@@ -98,12 +98,11 @@ func iterateShared(fn subscription.IterateFn, options subscription.IterationOpti
 	}
 	// 查询指定clientID下的所有topic
 	if options.ClientID != "" {
-		for _, v := range index[options.ClientID] {
-			for _, c := range v.shared {
-				if sub, ok := c[options.ClientID]; ok {
-					if !fn(options.ClientID, sub) {
-						return false
-					}
+		for name, v := range index[options.ClientID] {
+			shareName, _ := subscription.SplitTopic(name)
+			if sub, ok := v.shared[shareName][options.ClientID]; ok {
+				if !fn(options.ClientID, sub) {
+					return false
 				}
 			}
 		}
@@ -270,7 +269,8 @@ func (db *TrieDB) SubscribeLocked(clientID string, subscriptions ...*gmqtt.Subsc
 	var index map[string]map[string]*topicNode
 	rs := make(subscription.SubscribeResult, len(subscriptions))
 	for k, sub := range subscriptions {
-		topicName := sub.TopicFilter
+		// the indexes are keyed by the full topic name: the same filter in two share groups are two entries
+		topicName := sub.GetFullTopicName()
 		rs[k].Subscription = sub
 		if sub.ShareName != "" {
 			node = db.sharedTrie.subscribe(clientID, sub)
@@ -312,9 +312,9 @@ func (db *TrieDB) Subscribe(clientID string, subscriptions ...*gmqtt.Subscriptio
 func (db *TrieDB) UnsubscribeLocked(clientID string, topics ...string) {
 	var index map[string]map[string]*topicNode
 	var topicTrie *topicTrie
-	for _, topic := range topics {
+	for _, fullName := range topics {
 		var shareName string
-		shareName, topic := subscription.SplitTopic(topic)
+		shareName, topic := subscription.SplitTopic(fullName)
 		if shareName != "" {
 			topicTrie = db.sharedTrie
 			index = db.sharedIndex
@@ -326,11 +326,11 @@ func (db *TrieDB) UnsubscribeLocked(clientID string, topics ...string) {
 			topicTrie = db.userTrie
 		}
 		if _, ok := index[clientID]; ok {
-			if _, ok := index[clientID][topic]; ok {
+			if _, ok := index[clientID][fullName]; ok {
 				db.stats.SubscriptionsCurrent--
 				db.clientStats[clientID].SubscriptionsCurrent--
 			}
-			delete(index[clientID], topic)
+			delete(index[clientID], fullName)
 		}
 		topicTrie.unsubscribe(clientID, topic, shareName)
 	}
@@ -349,9 +349,17 @@ func (db *TrieDB) unsubscribeAll(index map[string]map[string]*topicNode, clientI
 	if db.clientStats[clientID] != nil {
 		db.clientStats[clientID].SubscriptionsCurrent -= uint64(len(index[clientID]))
 	}
-	for topicName, node := range index[clientID] {
-		delete(node.clients, clientID)
-		if len(node.clients) == 0 && len(node.children) == 0 {
+	for fullName, node := range index[clientID] {
+		shareName, topicName := subscription.SplitTopic(fullName)
+		if shareName != "" {
+			delete(node.shared[shareName], clientID)
+			if len(node.shared[shareName]) == 0 {
+				delete(node.shared, shareName)
+			}
+		} else {
+			delete(node.clients, clientID)
+		}
+		if len(node.clients) == 0 && len(node.shared) == 0 && len(node.children) == 0 {
 			ss := strings.Split(topicName, "/")
 			delete(node.parent.children, ss[len(ss)-1])
 		}
